@@ -27,11 +27,6 @@ import Varlink.Gen.Strings
 namespace Varlink.Gen
 open Varlink
 
-def goKeywords : List Bytes :=
-  ["break", "default", "func", "interface", "select", "case", "defer", "go", "map", "struct", "chan", "else",
-   "goto", "package", "switch", "const", "fallthrough", "if", "range", "type", "continue", "for", "import",
-   "return", "var"].map str
-
 /-- predeclared type names the generated file may use -/
 def predeclaredTypes : List Bytes :=
   ["bool", "int64", "float64", "string", "uint64", "error"].map str
